@@ -60,7 +60,7 @@ def cm_state(p):
 
 
 def run_check_fn(extra_models=(), unroll=2, depth=2):
-    ex = e2.executor('anemo', list(extra_models) + BASE_MODELS, max_depth=depth, unroll=unroll)
+    ex = e2.executor('anemo', list(extra_models) + BASE_MODELS, max_depth=depth, unroll=unroll, fixed_bounds=True)
     fn = find_method(ex.prog, 'ConnectionManager', 'handle_connectivity_check')
     p = Path()
     selfp = cm_state(p)
@@ -161,7 +161,7 @@ def ob_dial_loop(report):
             k(p, a)
         models = [(r'ConnectionManager::dial_peer$', m_dial_peer), (r'oneshot::channel$', m_channel), (r'JoinSet::len$', m_jlen),
                   (r'Vec::(remove|swap_remove)$|<Vec as Index>::index$', m_addr_pick)] + IT.ITER_MODELS
-        ex = e2.executor('anemo', models + BASE_MODELS, max_depth=6, unroll=2)
+        ex = e2.executor('anemo', models + BASE_MODELS, max_depth=6, unroll=2, fixed_bounds=True)
         ex.opaque_filters = True        # the eligibility predicate is decided by eligibility_equiv_spec
         fn = find_method(ex.prog, 'ConnectionManager', 'handle_connectivity_check')
         p = Path()
@@ -268,7 +268,7 @@ def _consts_in(e):
 
 def _config_max(ex):
     """symbolic value of Config::max_concurrent_outstanding_connecting_connections(): field or default"""
-    ex2 = e2.executor('anemo', max_depth=2)
+    ex2 = e2.executor('anemo', max_depth=2, fixed_bounds=True)
     fn = find_method(ex2.prog, 'Config', 'max_concurrent_outstanding_connecting_connections')
     cf = struct_fields('crates/anemo/src/config.rs', 'Config')
     idx = cf.index('max_concurrent_outstanding_connecting_connections')
@@ -287,7 +287,7 @@ def _config_max(ex):
 
 def ob_config_default(report):
     def body(ob):
-        ex = e2.executor('anemo', max_depth=2)
+        ex = e2.executor('anemo', max_depth=2, fixed_bounds=True)
         mx = _config_max(ex)
         cf = struct_fields('crates/anemo/src/config.rs', 'Config')
         idx = cf.index('max_concurrent_outstanding_connecting_connections')
